@@ -279,7 +279,10 @@ class World(object):
             if canon.ser_expr(e) != before:
                 mut.append('expr')
         self.results[idx] = r
-        return ['expr', canon.ser_expr(r)]
+        out = canon.ser_expr(r)
+        if self.mode == 'inter':
+            self.watch.append(('expr', r, out))     # what was handed out stays what it was
+        return ['expr', out]
 
     def op_exprapi(self, idx, op, resolved, mut):
         # the other read-only entry points of the expression API: copy / canonize / replace_expr / visit
@@ -386,7 +389,10 @@ class World(object):
             if canon.ser_machine(m) != before_m:
                 mut.append('machine')
         self.results[idx] = r
-        return ['expr', canon.ser_expr(r)]
+        out = canon.ser_expr(r)
+        if self.mode == 'inter':
+            self.watch.append(('expr', r, out))     # what was handed out stays what it was
+        return ['expr', out]
 
     def op_get_reg(self, idx, op, resolved, mut):
         s = sut()
@@ -398,7 +404,10 @@ class World(object):
             if canon.ser_machine(m) != before_m:
                 mut.append('machine')
         self.results[idx] = r
-        return ['expr', canon.ser_expr(r)]
+        out = canon.ser_expr(r)
+        if self.mode == 'inter':
+            self.watch.append(('expr', r, out))     # what was handed out stays what it was
+        return ['expr', out]
 
     def op_dump(self, idx, op, resolved, mut):
         m = self.machines[op['m']]
@@ -741,6 +750,14 @@ def gen_history(rng):
                 q = ['O', '+', [q, ['I', 'uint32', 1]]]
             return q
         epool += [closed_query() for _ in range(rng.choice([1, 2, 3]))]
+    if rng.random() < 0.15:
+        # a hand-built compose of odd total width with a constant slot (its simplification may raise), and slices of
+        # constants of that width: whatever the first leaves behind must not change the second
+        wd = rng.choice([24, 24, 40, 48])
+        c = rng.choice([0x12345678, 0x80FF7F01])
+        epool.append(['C', [[['S', rng.choice(regs), 0, 8], 0, 8], [['I', 'uint%d' % (wd - 8 if wd - 8 in (8, 16, 32, 64) else 16), 0x1234], 8, wd]]])
+        epool.append(['C', [[['I', 'uint8', 5], 0, 8], [['S', ['I', 'uint32', c], 8, 32], 8, 32]]])
+        epool.append(['S', ['I', 'uint64' if wd > 32 else 'uint32', c], 8, 8 + wd if wd + 8 <= 64 else 64])
     bpool = [rng.choice(gen.BYTES_POOL) for _ in range(3)] + [gen.gen_random_bytes(rng) for _ in range(2)] + gen.gen_family_pool(rng, rng.choice([4, 6, 8]))
     att_share = rng.choice([0.1, 0.5, 0.9])
     mtx = rng.sample(gen.ASM_MEMTXT, 3)
